@@ -105,8 +105,11 @@ class H:
         self._fill_base(base, len(self.arrays))
         k = len([a for a in self.arrays if a["role"] != "out"])
         comps = 1 if ncomp is None else ncomp
-        vals = np.stack([gen.build_field(self.specs[(k * 3 + c) % len(self.specs)], self.shape, np.float64)
-                         for c in range(comps * (2 if complex_ else 1))])
+        cspecs = [self.specs[(k * 3 + c) % len(self.specs)] for c in range(comps * (2 if complex_ else 1))]
+        if self.case.get("couple") and len(cspecs) > 1:
+            # the vector field as a whole is of one kind (e.g. exactly zero outside one box, like immersed-body forcing)
+            cspecs = [dict(sp, kind=cspecs[0]["kind"], box=cspecs[0].get("box")) for sp in cspecs]
+        vals = np.stack([gen.build_field(sp, self.shape, np.float64) for sp in cspecs])
         if complex_:
             vals = vals[:comps] + 1j * vals[comps:]
         if lo is not None:
@@ -808,7 +811,7 @@ def _strategy(tier, ki):
             pal = [[2 * w] * d, [2 * w + 1, 2 * w + 3, 2 * w + 2][:d], [9, 12, 10][:d]]
             shape = draw(st.sampled_from(pal))
             threads, dx = 2, 0.1
-        fk = ["constant", "poly", "bumps", "spikes", "checker", "noise", "mixed", "zero"]
+        fk = ["constant", "poly", "bumps", "spikes", "checker", "noise", "mixed", "zero", "boxnoise"]
         return {
             "entry": ki,
             "entry_name": f"{keys[ki][0]}{dict(keys[ki][1])}",
@@ -819,6 +822,7 @@ def _strategy(tier, ki):
             "fields": draw(st.lists(gen.field_spec(kinds=fk, max_mag_exp=8), min_size=4, max_size=4)),
             "scalars": draw(st.lists(gen.floats(-2.0, 2.0, 32), min_size=4, max_size=4)),
             "dx": dx,
+            "couple": draw(st.integers(0, 2)) == 0,
         }
 
     return case()
